@@ -513,6 +513,13 @@ REAL_FUNCTION_MODELS = {}
 
 STR_JOIN_HOOK = None
 BYTES_JOIN_HOOK = None
+# structured text (contracts/uri.py): an object with fstring / join / hex / format / view_comp methods.  Active only in
+# runs whose contract switched it on (run.ghost['text_mode']); everywhere else text with symbolic parts stays a placeholder.
+TEXT_HOOK = None
+
+
+def text_mode(it):
+    return TEXT_HOOK is not None and bool(it.run.ghost.get('text_mode'))
 
 
 def call_builtin(it, f, args, kwargs, node):
@@ -544,6 +551,11 @@ def call_builtin(it, f, args, kwargs, node):
             if isinstance(selfobj, bytes) and f.__name__ == 'join' and BYTES_JOIN_HOOK is not None and len(args) == 1 \
                     and not isinstance(args[0], (list, tuple)):
                 return BYTES_JOIN_HOOK(it, selfobj, args[0])
+            if isinstance(selfobj, str) and f.__name__ in ('join', 'format') and text_mode(it):
+                r = TEXT_HOOK.join(it, selfobj, args[0], node) if f.__name__ == 'join' and len(args) == 1 and not kwargs \
+                    else (TEXT_HOOK.format(it, selfobj, args, kwargs, node) if f.__name__ == 'format' else NotImplemented)
+                if r is not NotImplemented:
+                    return r
             if isinstance(selfobj, str) and f.__name__ == 'join' and STR_JOIN_HOOK is not None and len(args) == 1 \
                     and isinstance(args[0], (list, tuple)) and any(hasattr(p, 'label') or hasattr(p, 'kind') for p in args[0]):
                 return STR_JOIN_HOOK(it, selfobj, list(args[0]))
@@ -682,6 +694,8 @@ def value_method(it, tag, selfv, args, kwargs, node):
     if kind == 'view':
         v = selfv
         if name == 'hex':
+            if text_mode(it) and not args and not kwargs:
+                return TEXT_HOOK.hex(it, v, node)
             it.run.notes.append('bytes.hex() -> placeholder text')
             return '<hex>'
         if name == 'tobytes':
